@@ -148,7 +148,7 @@ pub fn run(ctx: &Ctx, rep: &mut Report) {
     rep.extra("oracle_mds_minors_checked", J::i(n_mds));
 
     let mut cases: Vec<Kv> = Vec::new();
-    let (fast_max, all_max) = if ctx.thorough() { (130usize, 40usize) } else { (40, 12) };
+    let (fast_max, all_max) = if ctx.thorough() { (130usize, 40usize) } else { (64, 16) };
     for k in 1..=fast_max {
         for r in 1..=fast_max {
             for rate in ["high", "low"] {
